@@ -26,10 +26,11 @@ def cut_half(c):
     else:
         P.exhaustive(c, [P.consts(P.S2x3, MaxSize=ms, MaxRead=min(ms + 1, 3), MaxBarriers=2) for ms in (1, 2, 3)], timeout=1500)
         P.self_test_model(c)
-        P.simulate(c, P.consts(P.S3x4, MaxSize=2, MaxKFires=3, MaxOFires=4, MaxBarriers=3, MaxRead=3, MaxLen=400), 6000, 400, 150)
-        n = 600
+        P.simulate(c, P.consts(P.S3x4, MaxSize=2, MaxKFires=3, MaxOFires=4, MaxBarriers=3, MaxRead=3, MaxLen=400), 4000, 400, 90)
+        n = 400
         gens = [P.consts(sh, MaxSize=ms, MaxRead=3, MaxKFires=3, MaxOFires=4, MaxBarriers=nb, WithEOI=(nb == 3), MaxLen=ml)
-                for sh, ml in ((P.S2x3, 150), (P.S3x4, 230), (P.S3x4b, 230)) for ms in (1, 2, 3) for nb in (2, 3)]
+                for sh, ml, ms, nb in ((P.S2x3, 150, 1, 2), (P.S2x3, 150, 2, 3), (P.S2x3, 150, 3, 2), (P.S3x4, 230, 1, 3), (P.S3x4, 230, 2, 2),
+                                       (P.S3x4, 230, 3, 3), (P.S3x4b, 230, 2, 3), (P.S3x4b, 230, 3, 2))]
         runs = 300
     for i, cc in enumerate(gens):
         _, res = P.replay(c, cc, n, s * 1000 + 500 + i, restart=True, label=" + restart from reported positions")
